@@ -81,7 +81,13 @@ func ruleServedSet(c *Ctx) {
 
 func ruleLegacyFold(c *Ctx) {
 	p := c.P
-	for _, spec := range []struct{ fn, cfg string }{{"Client.Start", "ClientConfig"}} {
+	foundAny := false
+	for _, spec := range []struct{ fn, cfg string }{{"Client.Start", "ClientConfig"}, {"NewClient", "ClientConfig"}} {
+		// the constructor is looked at only when Start does not fold (the fold
+		// moved to where the other configuration defaults are applied)
+		if spec.fn == "NewClient" && foundAny {
+			continue
+		}
 		f := p.Fn(spec.fn)
 		if f == nil {
 			c.R.Undecided("R-NEG", spec.fn, "anchor", "function not found")
@@ -128,8 +134,11 @@ func ruleLegacyFold(c *Ctx) {
 				c.R.Violate("R-NEG", p.Pos(as), f.Name, construct, fmt.Sprintf("the legacy plugin set is stored into VersionedPlugins although the version is already registered or no legacy set exists (absent=%v, legacy set non-nil=%v): a spurious or overwritten version is then offered and accepted", viaAbsent, viaPresent), nil)
 			}
 		}
-		if !found {
-			c.R.Undecided("R-NEG", f.Name, "legacy fold", "no store VersionedPlugins[v] = Plugins found")
+		if found {
+			foundAny = true
+		}
+		if !found && spec.fn == "NewClient" {
+			c.R.Undecided("R-NEG", "Client.Start", "legacy fold", "no store VersionedPlugins[v] = Plugins found")
 		}
 	}
 }
